@@ -517,6 +517,14 @@ func c20EqRun(c *fw.Ctx, pool []poolVal, i int64) {
 			c.Violation("clone-equals-panics", "%s: Clone().Equals(original) panics: %s", a.label, panicShort(pv))
 		} else if !eq && !isNaN && refEquals(va, va) == "t" {
 			c.Violation("clone-not-equal", "%s: a clone does not equal its original", a.label)
+		} else if refEquals(va, va) == "f" {
+			// not-a-number, also as an element at any depth, equals nothing: neither its clone (which may
+			// hold the very same element objects) nor itself
+			var e1, e2, e3 bool
+			fw.Try(func() { e1, e2, e3 = cl.Equals(va), va.Equals(cl), va.Equals(va) })
+			if e1 || e2 || e3 {
+				c.Violation("equals-true-with-nan-inside", "%s: clone.Equals(original)=%v original.Equals(clone)=%v original.Equals(original)=%v; not-a-number equals nothing", a.label, e1, e2, e3)
+			}
 		}
 	}
 	c.Outcome(fmt.Sprintf("%v", ab))
